@@ -103,11 +103,20 @@ func historyCase(c *core.Ctx, which string, i, nsteps int) {
 			o.Always = true
 		case x == 1:
 			o.Dry = true
-		case x <= 3:
+		case x == 2:
+			o.Dry, o.Always = true, true // `dawn build -n -B`
+		case x <= 4:
 			ts := e.P.AllTargets()
 			o.Failing = []string{ts[r.IntN(len(ts))].Label()}
+		case x == 5:
+			// an interrupted build: the process is killed inside (or right around) one body
+			ts := e.P.AllTargets()
+			o.Child, o.NoCheck = true, true
+			o.Env = []string{fmt.Sprintf("VERIF_CRASH=%s|%s|1", []string{"body.start", "body.mid", "body.end", "eval.after-body", "eval.before-body"}[r.IntN(5)], ts[r.IntN(len(ts))].Label())}
 		}
-		o.Child = r.IntN(3) == 0
+		if !o.Child {
+			o.Child = r.IntN(3) == 0
+		}
 		target := pickTarget(e)
 		staleBefore, forbidden := 0, 0
 		for _, l := range e.Closure(target) {
@@ -119,6 +128,11 @@ func historyCase(c *core.Ctx, which string, i, nsteps int) {
 		}
 		st, res, alive := e.Build(target, o)
 		builds++
+		if !alive && len(o.Env) > 0 {
+			c.Count("interrupted_builds", 1)
+			c.Eval("")
+			continue
+		}
 		if !alive {
 			c.Violation(id, "", "build-process-died", map[string]any{"step": st.N, "history": e.Script(), "error": res.RunErr})
 			return
